@@ -93,7 +93,7 @@ contract(
     params={},
     assumed=True, verify=False,
     bounded=("bounded/index_persist.py", 100, 1500),
-    props=["C20"],
+    props=["C20", "C17"],
     doc="[bounded only] the persistent forms (json, diskcache, sqltrie are outside the verifier's reach): JSON file, key-value "
         "database, SQLite-backed index with commit/close/reopen and a lazily loaded directory object",
 )
